@@ -11,10 +11,13 @@ import (
 	"fmt"
 	"math"
 	"strings"
+	"time"
 
 	"seehuhn.de/go/sfnt/cff"
 	"seehuhn.de/go/sfnt/verifharness/vlib"
 )
+
+func init() { MaxSteps = cff.VerifC05MaxSteps }
 
 // Signatures of the open findings: exactly these classes are excluded from
 // the comparison; every other disagreement is a violation.
@@ -48,7 +51,19 @@ func scaled(f float64) (int64, bool) {
 
 // runImpl executes the implementation and renders the glyph in the model's
 // output syntax.
-func runImpl(p *Prog) (out string) {
+func runImpl(p *Prog) string {
+	// watchdog: the code under test may run for fan-out^depth steps
+	done := make(chan string, 1)
+	go func() { done <- runImpl1(p) }()
+	select {
+	case out := <-done:
+		return out
+	case <-time.After(5 * time.Second):
+		return "timeout"
+	}
+}
+
+func runImpl1(p *Prog) (out string) {
 	defer func() {
 		if e := recover(); e != nil {
 			out = "panic"
@@ -117,6 +132,14 @@ func verdict(p *Prog, impl string) (ref *RefResult, fail, sig string, excluded b
 		// outside the specification's defined behaviour: only "no panic" is required
 		if impl == "panic" {
 			return ref, "panic on a program with unspecified result", "c05-panic", true
+		}
+		return ref, "", "", true
+	}
+	if ref.Kind == "overbudget" {
+		// more than maxT2Steps operands/operators: an implementation limit, not part of
+		// the specification; the implementation must refuse (and do so quickly)
+		if impl != "err" {
+			return ref, "program above the step budget not rejected: " + clip(impl), "c05-step-budget-not-enforced", true
 		}
 		return ref, "", "", true
 	}
@@ -568,6 +591,10 @@ func Gen(run *vlib.Run, seed uint64, tier string) {
 		addProg(run, p, "stream:delta-above-32000")
 	}
 
+	// (8) total work: nested calls multiply the number of executed operators
+	// (fan-out^depth); the implementation must stay within its step budget
+	fanout(run, r, tier)
+
 	// (7) subroutine bias and range test
 	var sizes []int
 	for _, n := range []int{0, 1, 2, 107, 108, 215, 216, 1238, 1239, 1240, 1241, 2262, 2263, 33898, 33899, 33900, 33901, 40000, 65535, 65536} {
@@ -586,6 +613,95 @@ func Gen(run *vlib.Run, seed uint64, tier string) {
 			if fail != "" {
 				run.Fail(idx, cl, fail, sig)
 			}
+		}
+	}
+}
+
+// fanProgram: subroutine i calls subroutine i+1 fan times (depth levels);
+// the charstring calls subroutine 0 fan times.
+func fanProgram(fan, depth int) *Prog {
+	t := &Table{Size: depth, Default: []byte{11}, Special: map[int][]byte{}}
+	for i := 0; i < depth; i++ {
+		var b []byte
+		if i+1 < depth {
+			for k := 0; k < fan; k++ {
+				b = append(b, byte(i+1-107+139), 10)
+			}
+		}
+		t.Special[i] = append(b, 11)
+	}
+	var code []byte
+	for k := 0; k < fan; k++ {
+		code = append(code, byte(0-107+139), 10)
+	}
+	return &Prog{Code: append(code, 14), Subrs: t, Gsubrs: &Table{Special: map[int][]byte{}}}
+}
+
+// exactSteps builds a program that executes exactly n operands+operators:
+// 0 0 rmoveto, calls of a filler subroutine, filler pairs (0 drop), endchar.
+func exactSteps(n int) *Prog {
+	const pairs = 1000
+	var body []byte
+	for i := 0; i < pairs; i++ {
+		body = append(body, 139, 12, 18)
+	}
+	body = append(body, 11)
+	perCall := 2 + 2*pairs + 1
+	t := &Table{Size: 1, Default: []byte{11}, Special: map[int][]byte{0: body}}
+	code := []byte{139, 139, 21}
+	left := n - 3 - 1 // rmoveto sequence and endchar
+	for left >= perCall+1 {
+		code = append(code, 32, 10) // -107 callsubr
+		left -= perCall
+	}
+	for left >= 2 {
+		code = append(code, 139, 12, 18)
+		left -= 2
+	}
+	if left == 1 {
+		code = append(code, 239) // one more operand: the width
+	}
+	return &Prog{Code: append(code, 14), Subrs: t, Gsubrs: &Table{Special: map[int][]byte{}}}
+}
+
+func fanout(run *vlib.Run, r *vlib.Rand, tier string) {
+	type fd struct{ fan, depth int }
+	cases := []fd{{2, 10}, {3, 10}, {2, 5}, {4, 6}, {10, 3}, {4, 10}, {8, 10}, {20, 10}, {30, 10}, {100, 4}, {1000, 2}}
+	for _, c := range cases {
+		p := fanProgram(c.fan, c.depth)
+		t0 := time.Now()
+		impl := runImpl(p)
+		el := time.Since(t0)
+		ref, fail, sig, excluded := verdict(p, impl)
+		cl := caseLine(p)
+		if excluded {
+			cl = "!" + cl
+		}
+		idx := run.Add(cl, impl, true, "stream:fanout", "spec:"+ref.Kind, fmt.Sprintf("fanout:%d^%d", c.fan, c.depth))
+		if fail != "" {
+			run.Fail(idx, cl, fail, sig)
+		} else if el > 2*time.Second {
+			run.Fail(idx, cl, fmt.Sprintf("decoding %d bytes took %v", len(p.Code)+c.depth*(2*c.fan+1), el), "c05-exponential-time")
+		}
+	}
+	for _, n := range []int{MaxSteps - 1, MaxSteps, MaxSteps + 1, MaxSteps + 2} {
+		p := exactSteps(n)
+		impl := runImpl(p)
+		ref, fail, sig, excluded := verdict(p, impl)
+		cl := caseLine(p)
+		if excluded {
+			cl = "!" + cl
+		}
+		want := n
+		if n > MaxSteps {
+			want = MaxSteps + 1
+		}
+		idx := run.Add(cl, impl, true, "stream:step-budget-boundary", "spec:"+ref.Kind)
+		if ref.Steps != want {
+			run.Fail(idx, cl, fmt.Sprintf("generator: program executes %d steps, wanted %d", ref.Steps, n), "c05-generator")
+		}
+		if fail != "" {
+			run.Fail(idx, cl, fail, sig)
 		}
 	}
 }
